@@ -27,7 +27,7 @@ FLOORS = {"rpms": 100, "modules": 100, "extra-files": 100, "dump-for-tree": 100}
 
 def _stats(refused, accepted_before_refusal, cells, ops):
     labels = ["refusal"] if refused else []
-    labels += sorted(set("break:%s" % o["break"] for o in ops if o.get("break")))
+    labels += sorted(set("break:%s" % o["break"] for o in ops if o.get("break"))) + (["forgot-a-variant-or-arch"] if any(o.get("forget") for o in ops) else [])
     return {"nontrivial": bool(refused and accepted_before_refusal and len(cells) >= 2), "labels": labels}
 
 
@@ -38,6 +38,8 @@ def rpms_case(case):
     refused = accepted = after = 0
     cells = set()
     for step, op in enumerate(case["ops"]):
+        if mf.forget(rpms, rpms.rpms, model, op):
+            continue
         trial = copy.deepcopy(model)
         if mf.rpm_model_apply(trial, op):
             must("add-valid", mf.rpm_call, rpms, op)
@@ -63,6 +65,8 @@ def modules_case(case):
     refused = accepted = after = 0
     cells = set()
     for step, op in enumerate(case["ops"]):
+        if mf.forget(mods, mods.modules, model, op):
+            continue
         trial = copy.deepcopy(model)
         if mf.module_model_apply(trial, op, case["lists"]):
             must("add-valid", caller.call, mods, op)
@@ -88,6 +92,8 @@ def extra_case(case):
     refused = accepted = after = 0
     cells = set()
     for step, op in enumerate(case["ops"]):
+        if mf.forget(ef, ef.extra_files, model, op):
+            continue
         trial = copy.deepcopy(model)
         if mf.extra_model_apply(trial, op):
             must("add-valid", mf.extra_call, ef, op)
@@ -151,9 +157,9 @@ def tree_case(case):
 
 
 def run(ctx):
-    ctx.forall("rpms", mf.rpm_history(), rpms_case, ctx.n(1200, 48000))
-    ctx.forall("modules", mf.module_history(), modules_case, ctx.n(1200, 48000))
-    ctx.forall("extra-files", mf.extra_history(), extra_case, ctx.n(800, 32000))
+    ctx.forall("rpms", mf.with_forgets(mf.rpm_history()), rpms_case, ctx.n(1200, 48000))
+    ctx.forall("modules", mf.with_forgets(mf.module_history()), modules_case, ctx.n(1200, 48000))
+    ctx.forall("extra-files", mf.with_forgets(mf.extra_history()), extra_case, ctx.n(800, 32000))
     ctx.forall("dump-for-tree", tree_strategy, tree_case, ctx.n(1200, 48000))
 
 
